@@ -354,6 +354,12 @@ def duplication(R, ctx):
                         do = u8map[str(arm)]
             if skip:
                 continue
+            # a failing file writer / additional primary writer must not suppress the duplicates: on a row on which such a write returned Err
+            # both duplication decisions have been taken (the duplicates are documented to depend on level and setting only)
+            wfail = [a for a, v in r.cond if v == 'Err' and re.search(r'LogWriter>?::write#', a) and a.startswith('variant(')]
+            if wfail and (de is None or do is None):
+                problems.append(f"a failing write to the file writer / primary writer ends MultiWriter::write before the duplication to {'stderr' if de is None else 'stdout'} "
+                                "was decided: while the primary output fails, records at or above the duplication level are not duplicated")
             err_eff = [e for e in r.effects if (e[0].endswith('write_buffered') and 'stderr' in e[1][3]) or e[0] == 'std::io::_eprint']
             out_eff = [e for e in r.effects if (e[0].endswith('write_buffered') and 'stdout' in e[1][3]) or e[0] == 'std::io::_print']
             fmts = [e for e in r.effects if e[0].startswith('fnptr:')]
